@@ -9,6 +9,8 @@ Definition conds_client_Client : list string :=
   ["cfg == nil"; "cfg.Me == nil || cfg.Me.Nick == """" || cfg.Me.Ident == """""; "cfg.LocalAddr != """""; "!hasPort(cfg.LocalAddr)"; "err == nil"; "cfg.Sasl != nil && !cfg.EnableCapabilityNegotiation"].
 Definition inits_client_Client : list string :=
   ["Nick: ""__idiot__"""; "cfg: cfg"; "dialer: dialer"; "intHandlers: handlerSet()"; "fgHandlers: handlerSet()"; "bgHandlers: handlerSet()"; "stRemovers: make([]Remover, 0, len(stHandlers))"; "lastsent: time.Now()"; "supportedCaps: capabilitySet()"; "currCaps: capabilitySet()"; "saslRemainingData: nil"].
+Definition assigns_client_Client : list string :=
+  ["cfg.Me = &state.Nick{Nick: ""__idiot__""}"; "cfg.Me.Ident = ""goirc"""; "cfg.Me.Name = ""Powered by GoIRC"""; "dialer.Timeout = cfg.Timeout"; "dialer.DualStack = cfg.DualStack"; "dialer.LocalAddr = local"; "cfg.EnableCapabilityNegotiation = true"].
 Definition flow_client_Conn_Action : list string :=
   ["conn.Ctcp"].
 Definition conds_client_Conn_Action : list string :=
@@ -375,6 +377,8 @@ Definition flow_client_Conn_recv : list string :=
   ["for{"; "rw.ReadString"; "if{"; "if{"; "err.Error"; "}"; "conn.wg.Done"; "conn.closeIf"; "return"; "}"; "strings.Trim"; "ParseLine"; "if{"; "time.Now"; "send conn.in"; "}"; "else{"; "}"; "}"].
 Definition conds_client_Conn_recv : list string :=
   ["err != nil"; "err != io.EOF"; "line != nil"].
+Definition assigns_client_Conn_recv : list string :=
+  ["line.Time = time.Now()"].
 Definition flow_client_Conn_runLoop : list string :=
   ["for{"; "select{"; "case"; "recv conn.in"; "conn.dispatch"; "case"; "ctx.Done"; "recv ctx.Done()"; "conn.wg.Done"; "conn.closeIf"; "return"; "}"; "}"].
 Definition conds_client_Conn_runLoop : list string :=
@@ -403,6 +407,8 @@ Definition flow_client_Line_Copy : list string :=
   ["if{"; "for{"; "}"; "}"; "return"].
 Definition conds_client_Line_Copy : list string :=
   ["l.Tags != nil"].
+Definition assigns_client_Line_Copy : list string :=
+  ["nl.Args = make([]string, len(l.Args))"; "nl.Tags = make(map[string]string)"].
 Definition flow_client_Line_Public : list string :=
   ["switch{"; "case"; "if{"; "return"; "}"; "switch{"; "case"; "return"; "}"; "case"; "if{"; "return"; "}"; "switch{"; "case"; "return"; "}"; "}"; "return"].
 Definition conds_client_Line_Public : list string :=
@@ -425,12 +431,16 @@ Definition conds_client_NewConfig : list string :=
   ["len(args) > 0 && args[0] != """""; "len(args) > 1 && args[1] != """""].
 Definition inits_client_NewConfig : list string :=
   ["Me: &state.Nick{Nick: nick}"; "PingFreq: 3 * time.Minute"; "NewNick: DefaultNewNick"; "Recover: (*Conn).LogPanic"; "SplitLen: defaultSplit"; "Timeout: 60 * time.Second"; "EnableCapabilityNegotiation: false"; "Nick: nick"].
+Definition assigns_client_NewConfig : list string :=
+  ["cfg.Me.Ident = ""goirc"""; "cfg.Me.Ident = args[0]"; "cfg.Me.Name = ""Powered by GoIRC"""; "cfg.Me.Name = args[1]"; "cfg.Version = ""Powered by GoIRC"""; "cfg.QuitMessage = ""GoBye!"""].
 Definition flow_client_ParseLine : list string :=
   ["if{"; "return"; "}"; "if{"; "strings.Index"; "if{"; "}"; "else{"; "return"; "}"; "for{"; "strings.Split"; "if{"; "}"; "strings.SplitN"; "tagsReplacer.Replace"; "if{"; "}"; "else{"; "}"; "}"; "}"; "if{"; "return"; "}"; "if{"; "strings.Index"; "if{"; "}"; "else{"; "return"; "}"; "parseUserHost"; "if{"; "}"; "}"; "strings.SplitN"; "strings.Fields"; "if{"; "return"; "}"; "if{"; "}"; "else{"; "}"; "strings.ToUpper"; "if{"; "}"; "strings.HasPrefix"; "strings.HasSuffix"; "if{"; "strings.SplitN"; "strings.Trim"; "if{"; "}"; "strings.ToUpper"; "if{"; "}"; "else{"; "if{"; "}"; "else{"; "}"; "}"; "}"; "return"].
 Definition conds_client_ParseLine : list string :=
   ["s == """""; "s[0] == '@'"; "idx != -1"; "tag == """""; "len(pair) < 2"; "s == """""; "s[0] == ':'"; "idx != -1"; "ok"; "len(fields) == 0"; "len(args) > 1"; "len(args) > 1"; "(line.Cmd == PRIVMSG || line.Cmd == NOTICE) && len(line.Args) > 1 && len(line.Args[1]) > 2 && strings.HasPrefix(line.Args[1], ""\001"") && strings.HasSuffix(line.Args[1], ""\001"")"; "len(t) > 1"; "c == ACTION && line.Cmd == PRIVMSG"; "line.Cmd == PRIVMSG"].
 Definition inits_client_ParseLine : list string :=
   ["Raw: s"].
+Definition assigns_client_ParseLine : list string :=
+  ["line.Tags = make(map[string]string)"; "line.Host = line.Src"; "line.Nick = n"; "line.Ident = i"; "line.Host = h"; "line.Cmd = strings.ToUpper(args[0])"; "line.Args = args[1:]"; "line.Cmd = c"; "line.Cmd = CTCP"; "line.Cmd = CTCPREPLY"; "line.Args = append([]string{c}, line.Args...)"].
 Definition flow_client_SimpleClient : list string :=
   ["Client"; "NewConfig"; "return"].
 Definition conds_client_SimpleClient : list string :=
@@ -479,6 +489,8 @@ Definition conds_client_hSet_add : list string :=
   ["!ok"; "!ok"].
 Definition inits_client_hSet_add : list string :=
   ["set: hs"; "event: ev"; "handler: h"].
+Definition assigns_client_hSet_add : list string :=
+  ["l.start = hn"; "hn.prev = l.end"; "l.end.next = hn"; "l.end = hn"].
 Definition flow_client_hSet_dispatch : list string :=
   ["strings.ToLower"; "for{"; "hs.getHandlers"; "wg.Add"; "go func"; "{"; "hn.Handle"; "line.Copy"; "wg.Done"; "}"; "}"; "wg.Wait"].
 Definition conds_client_hSet_dispatch : list string :=
@@ -491,6 +503,8 @@ Definition flow_client_hSet_remove : list string :=
   ["hs.Lock"; "defer hs.Unlock"; "if{"; "return"; "}"; "if{"; "}"; "else{"; "}"; "if{"; "}"; "else{"; "}"; "if{"; "}"].
 Definition conds_client_hSet_remove : list string :=
   ["!ok"; "hn.next == nil"; "hn.prev == nil"; "l.start == nil || l.end == nil"].
+Definition assigns_client_hSet_remove : list string :=
+  ["l.end = hn.prev"; "hn.next.prev = hn.prev"; "l.start = hn.next"; "hn.prev.next = hn.next"; "hn.next = nil"; "hn.prev = nil"; "hn.set = nil"].
 Definition flow_client_handlerSet : list string :=
   ["return"].
 Definition conds_client_handlerSet : list string :=
@@ -526,6 +540,10 @@ Definition go_stmts_client : list (string * string) :=
   [("Conn.closeIf", "func"); ("Conn.dispatch", "conn.bgHandlers.dispatch"); ("Conn.postConnect", "conn.send"); ("Conn.postConnect", "conn.recv"); ("Conn.postConnect", "conn.runLoop"); ("Conn.postConnect", "conn.ping"); ("Conn.postConnect", "func"); ("hSet.dispatch", "func")].
 Definition cfg_uses_client : list (string * string) :=
   [("Client", "Me"); ("Client", "Timeout"); ("Client", "DualStack"); ("Client", "LocalAddr"); ("Client", "Sasl"); ("Client", "EnableCapabilityNegotiation"); ("Conn.ConnectToContext", "Server"); ("Conn.ConnectToContext", "Pass"); ("Conn.Ctcp", "SplitLen"); ("Conn.CtcpReply", "SplitLen"); ("Conn.DisableStateTracking", "Me"); ("Conn.EnableStateTracking", "Me"); ("Conn.Me", "Me"); ("Conn.Notice", "SplitLen"); ("Conn.Privmsg", "SplitLen"); ("Conn.Quit", "QuitMessage"); ("Conn.String", "Server"); ("Conn.dialProxy", "Proxy"); ("Conn.dialProxy", "Server"); ("Conn.getRequestCapabilities", "Sasl"); ("Conn.getRequestCapabilities", "Capabilites"); ("Conn.h_001", "Me"); ("Conn.h_433", "NewNick"); ("Conn.h_433", "Me"); ("Conn.h_AUTHENTICATE", "Sasl"); ("Conn.h_CTCP", "Version"); ("Conn.h_NICK", "Me"); ("Conn.h_REGISTER", "EnableCapabilityNegotiation"); ("Conn.h_REGISTER", "Pass"); ("Conn.h_REGISTER", "Me"); ("Conn.handleCapAck", "Sasl"); ("Conn.internalConnect", "Server"); ("Conn.internalConnect", "SSL"); ("Conn.internalConnect", "Proxy"); ("Conn.internalConnect", "SSLConfig"); ("Conn.ping", "PingFreq"); ("Conn.postConnect", "PingFreq"); ("Conn.write", "Flood"); ("NewConfig", "Me"); ("NewConfig", "Version"); ("NewConfig", "QuitMessage"); ("hNode.Handle", "Recover")].
+Definition conn_io_users_client : list string :=
+  ["Conn.closeIf"; "Conn.initialise"; "Conn.postConnect"; "Conn.recv"; "Conn.runLoop"; "Conn.send"; "Conn.write"].
+Definition conn_write_callers_client : list string :=
+  ["Conn.send"].
 
 Definition flow_state_ChanMode_Copy : list string :=
   ["if{"; "return"; "}"; "return"].
@@ -641,12 +659,16 @@ Definition conds_state_NewMockTracker : list string :=
   [].
 Definition inits_state_NewMockTracker : list string :=
   ["ctrl: ctrl"].
+Definition assigns_state_NewMockTracker : list string :=
+  ["mock.recorder = &_MockTrackerRecorder{mock}"].
 Definition flow_state_NewTracker : list string :=
   ["newNick"; "return"].
 Definition conds_state_NewTracker : list string :=
   [].
 Definition inits_state_NewTracker : list string :=
   ["chans: make(map[string]*channel)"; "nicks: make(map[string]*nick)"].
+Definition assigns_state_NewTracker : list string :=
+  ["st.me = newNick(mynick)"].
 Definition flow_state_Nick_Equals : list string :=
   ["reflect.DeepEqual"; "return"].
 Definition conds_state_Nick_Equals : list string :=
@@ -765,6 +787,8 @@ Definition flow_state_channel_parseModes : list string :=
   ["for{"; "switch{"; "case"; "case"; "case"; "case"; "case"; "case"; "case"; "case"; "case"; "case"; "case"; "case"; "case"; "if{"; "}"; "else{"; "if{"; "}"; "else{"; "}"; "}"; "case"; "if{"; "strconv.Atoi"; "}"; "else{"; "if{"; "}"; "else{"; "}"; "}"; "case"; "if{"; "}"; "case"; "if{"; "if{"; "switch{"; "case"; "case"; "case"; "case"; "case"; "}"; "}"; "else{"; "}"; "}"; "else{"; "}"; "case"; "}"; "}"].
 Definition conds_state_channel_parseModes : list string :=
   ["for i < len(modes)"; "modeop && len(modeargs) != 0"; "!modeop"; "modeop && len(modeargs) != 0"; "!modeop"; "len(modeargs) != 0"; "len(modeargs) != 0"; "ok"].
+Definition assigns_state_channel_parseModes : list string :=
+  ["ch.modes.InviteOnly = modeop"; "ch.modes.Moderated = modeop"; "ch.modes.NoExternalMsg = modeop"; "ch.modes.Private = modeop"; "ch.modes.Registered = modeop"; "ch.modes.Secret = modeop"; "ch.modes.ProtectedTopic = modeop"; "ch.modes.SSLOnly = modeop"; "ch.modes.AllSSL = modeop"; "ch.modes.OperOnly = modeop"; "ch.modes.Key = """""; "ch.modes.Limit = 0"; "cp.Owner = modeop"; "cp.Admin = modeop"; "cp.Op = modeop"; "cp.HalfOp = modeop"; "cp.Voice = modeop"].
 Definition flow_state_init : list string :=
   ["for{"; "}"].
 Definition conds_state_init : list string :=
@@ -807,6 +831,8 @@ Definition flow_state_nick_parseModes : list string :=
   ["for{"; "switch{"; "case"; "case"; "case"; "case"; "case"; "case"; "case"; "case"; "case"; "}"; "}"].
 Definition conds_state_nick_parseModes : list string :=
   ["for i < len(modes)"].
+Definition assigns_state_nick_parseModes : list string :=
+  ["nk.modes.Bot = modeop"; "nk.modes.Invisible = modeop"; "nk.modes.Oper = modeop"; "nk.modes.WallOps = modeop"; "nk.modes.HiddenHost = modeop"; "nk.modes.SSL = modeop"].
 Definition flow_state_stateTracker_Associate : list string :=
   ["st.mu.Lock"; "defer st.mu.Unlock"; "if{"; "return"; "}"; "else{"; "if{"; "return"; "}"; "else{"; "nk.isOn"; "if{"; "return"; "}"; "}"; "}"; "ch.addNick"; "nk.addChannel"; "cp.Copy"; "return"].
 Definition conds_state_stateTracker_Associate : list string :=
@@ -855,6 +881,8 @@ Definition flow_state_stateTracker_NickInfo : list string :=
   ["st.mu.Lock"; "defer st.mu.Unlock"; "if{"; "return"; "}"; "nk.Nick"; "return"].
 Definition conds_state_stateTracker_NickInfo : list string :=
   ["!ok"].
+Definition assigns_state_stateTracker_NickInfo : list string :=
+  ["nk.ident = ident"; "nk.host = host"; "nk.name = name"].
 Definition flow_state_stateTracker_NickModes : list string :=
   ["st.mu.Lock"; "defer st.mu.Unlock"; "if{"; "return"; "}"; "nk.parseModes"; "nk.Nick"; "return"].
 Definition conds_state_stateTracker_NickModes : list string :=
@@ -863,6 +891,8 @@ Definition flow_state_stateTracker_ReNick : list string :=
   ["st.mu.Lock"; "defer st.mu.Unlock"; "if{"; "return"; "}"; "if{"; "return"; "}"; "for{"; "}"; "nk.Nick"; "return"].
 Definition conds_state_stateTracker_ReNick : list string :=
   ["!ok"; "ok"].
+Definition assigns_state_stateTracker_ReNick : list string :=
+  ["nk.nick = neu"].
 Definition flow_state_stateTracker_String : list string :=
   ["st.mu.Lock"; "defer st.mu.Unlock"; "for{"; "ch.String"; "}"; "for{"; "if{"; "n.String"; "}"; "}"; "return"].
 Definition conds_state_stateTracker_String : list string :=
@@ -871,6 +901,8 @@ Definition flow_state_stateTracker_Topic : list string :=
   ["st.mu.Lock"; "defer st.mu.Unlock"; "if{"; "return"; "}"; "ch.Channel"; "return"].
 Definition conds_state_stateTracker_Topic : list string :=
   ["!ok"].
+Definition assigns_state_stateTracker_Topic : list string :=
+  ["ch.topic = topic"].
 Definition flow_state_stateTracker_Wipe : list string :=
   ["st.mu.Lock"; "defer st.mu.Unlock"; "for{"; "st.delChannel"; "}"].
 Definition conds_state_stateTracker_Wipe : list string :=
@@ -891,6 +923,10 @@ Definition chan_recvs_state : list (string * string) :=
 Definition go_stmts_state : list (string * string) :=
   [].
 Definition cfg_uses_state : list (string * string) :=
+  [].
+Definition conn_io_users_state : list string :=
+  [].
+Definition conn_write_callers_state : list string :=
   [].
 
 Definition log_calls_client : list (string * string * string * list string) :=
